@@ -15,7 +15,11 @@ ASSUMPTIONS = [
 
 
 def write_evidence(pid, tier, seed, wall, coverage, violations, extra_assumptions=()):
-    os.makedirs(os.path.join(VERIF, "evidence"), exist_ok=True)
+    # /verif/evidence describes /repo only: a run pointed at another checkout (GEOMETER_REPO, used when a seeded change is
+    # evaluated in a scratch worktree) writes its evidence next to that checkout instead
+    target = os.path.realpath(os.environ.get("GEOMETER_REPO", "/repo"))
+    evdir = os.path.join(VERIF, "evidence") if target == os.path.realpath("/repo") else target.rstrip("/") + ".evidence"
+    os.makedirs(evdir, exist_ok=True)
     cov = dict(coverage)
     cov.setdefault(
         "rule",
@@ -39,7 +43,7 @@ def write_evidence(pid, tier, seed, wall, coverage, violations, extra_assumption
         "wall_s": round(float(wall), 3),
         "violations": int(violations),
     }
-    path = os.path.join(VERIF, "evidence", f"{pid}.json")
+    path = os.path.join(evdir, f"{pid}.json")
     tmp = path + ".tmp"
     with open(tmp, "w") as f:
         json.dump(body, f, indent=1, sort_keys=False)
